@@ -10,22 +10,23 @@ EXTENDS CqlRequest, Json, IOUtils, TLC
 Rec == ndJsonDeserialize(IOEnv.TRACE)
 VARIABLE l
 I64(n) == [neg |-> 0, mag |-> <<n % 256, (n \div 256) % 256, (n \div 65536) % 256, (n \div 16777216) % 256>>]
-Paged(k) == k \in {"query_iter", "execute_iter"}
+Paged(k) == k \in {"query_iter", "execute_iter", "query_page", "execute_page"}
 PageOf(r) == IF Paged(r.kind) THEN <<1, IF r.page[1] = 1 THEN r.page[2] ELSE 5000>> ELSE <<0, 0>>
-ParamsOf(r, vals) == [cl |-> r.cl, values |-> vals, skip |-> 0, page |-> PageOf(r), ps |-> <<0, << >>>>, serial |-> r.serial, ts |-> <<r.ts[1], I64(r.ts[2])>>]
+ParamsOf(r, vals) == [cl |-> r.cl, values |-> vals, skip |-> 0, page |-> PageOf(r), ps |-> r.ps, serial |-> r.serial, ts |-> <<r.ts[1], I64(r.ts[2])>>]
 Desc(r) ==
-  CASE r.kind \in {"query", "query_iter"} -> [op |-> "query", text |-> r.text0, params |-> ParamsOf(r, << >>), tracing |-> r.tracing]
-    [] r.kind \in {"execute", "execute_iter"} -> [op |-> "execute", id |-> r.ids.insert, meta_id |-> <<0, << >>>>, params |-> ParamsOf(r, r.values), tracing |-> r.tracing]
+  CASE r.kind \in {"query", "query_iter", "query_page"} -> [op |-> "query", text |-> r.text0, params |-> ParamsOf(r, << >>), tracing |-> r.tracing]
+    [] r.kind \in {"execute", "execute_iter", "execute_page"} -> [op |-> "execute", id |-> r.ids.insert, meta_id |-> <<0, << >>>>, params |-> ParamsOf(r, r.values), tracing |-> r.tracing]
     [] r.kind = "batch" -> [op |-> "batch", type |-> r.btype, cl |-> r.cl, serial |-> r.serial, ts |-> <<r.ts[1], I64(r.ts[2])>>, tracing |-> r.tracing,
                             stmts |-> <<[kind |-> 1, id |-> r.ids.insert, values |-> r.values], [kind |-> 0, text |-> r.text0, values |-> << >>],
                                         [kind |-> 1, id |-> r.ids.insert, values |-> r.values]>>]
 SessionFrameOK(r) ==
   LET d == Desc(r) IN
   /\ r.ok = 1
-  /\ Len(r.frames) = 1                                     \* one request, one frame (single page, no retry)
-  /\ r.frames[1].opcode = Opcode(d)
-  /\ r.frames[1].flags = (IF r.tracing = 1 THEN 2 ELSE 0)
-  /\ r.frames[1].body = ReqBody(d)
+  /\ Len(r.frames) = 1 + r.evict                           \* one request, one frame (single page, no retry) - sent again, unchanged, after UNPREPARED
+  /\ \A i \in 1..Len(r.frames) :
+       /\ r.frames[i].opcode = Opcode(d)
+       /\ r.frames[i].flags = (IF r.tracing = 1 THEN 2 ELSE 0)     \* in particular never "compressed": no compression was negotiated
+       /\ r.frames[i].body = ReqBody(d)
 TraceInit == l = 1 /\ TLCSet(1, 1)
 TraceNext == l <= Len(Rec) /\ (IF SessionFrameOK(Rec[l]) THEN TRUE ELSE PrintT(<<"BAD", l>>)) /\ l' = l + 1
 TraceSpec == TraceInit /\ [][TraceNext]_l
